@@ -129,35 +129,13 @@ func replay(r *core.Run, raw json.RawMessage) {
 	if len(c.Path) == 0 {
 		return
 	}
-	sc := findScenario(c)
-	if sc == nil {
+	if findScenario(c) == nil {
 		r.Violation("replay|unknown-kind", c.Kind, nil)
 		return
 	}
-	h := newHarness()
-	path, op := c.Path[:len(c.Path)-1], c.Path[len(c.Path)-1]
-	if !sc.NoModel {
-		w0, _ := runPath(h, sc, nil)
-		d0, _ := realDump(w0)
-		x := &explorer{r: r, confirm: map[string]bool{}, memo: map[string]*memoEntry{}, harness: make([]*harness, 1)}
-		if !x.checkInitial(h, sc, d0) || (op.T == opObserve && len(path) == 0 && sc.InitOrder != nil) {
-			return
-		}
-	}
-	w, _ := runPath(h, sc, path)
-	pre, _ := realDump(w)
-	fail, dump, _ := transitionRef(h, sc, path, op, c.Ref, pre)
 	fmt.Println("path:", pathString(c.Path))
-	fmt.Println("state before:\n" + pre)
-	fmt.Println("state after:\n" + dump)
-	if fail != nil {
-		sig := strings.SplitN(fail.fine, "|", 2)[1]
-		switch {
-		case !sc.NoModel:
-			sig = routePrefix(op) + sig
-		case !strings.Contains(fail.mismatch, "routes disagree"):
-			sig = routeNames[op.Rt] + "|" + sig
-		}
-		r.Violation(sig, fail.what, c)
+	if _, failed := judge(r, newHarness(), c); !failed {
+		fmt.Println("the case passes")
 	}
 }
+
